@@ -263,6 +263,34 @@ def check(ctx):
     ctx.ob("C16.R3", se, "too short warm-ups are rejected (warmup < init + term + base)",
            any("init_duration" in g and "term_duration" in g and "base_duration" in g
                for g in gtexts), detail=str(gtexts))
+    # the rejected set, evaluated: exactly  W < 20  or  W < init + term + base
+    # (equality is admissible: the remaining slow window then is the base window)
+    from ..domains import concrete as _cc
+    Wn, In, Tn, Bn = (n(x) for x in ("warmup_duration", "init_duration", "term_duration",
+                                     "base_duration"))
+    bad_g, err_g = [], None
+    for W_ in (10, 19, 20, 21, 60, 99, 100, 101, 150):
+        for I_ in (5, 20, 75):
+            for T_ in (5, 25, 50):
+                for B_ in (1, 10, 25):
+                    env = {Wn: W_, In: I_, Tn: T_, Bn: B_}
+                    rej = False
+                    try:
+                        for cond, _, _ in rs.raises:
+                            if all(bool(_cc.evaluate(a, env)) == pol for a, pol in cond):
+                                rej = True
+                    except _cc.Unmodelled as e:
+                        err_g = e
+                        break
+                    want = W_ < 20 or W_ < I_ + T_ + B_
+                    if rej != want:
+                        bad_g.append(f"W={W_},init={I_},term={T_},base={B_}: "
+                                     f"{'rejected' if rej else 'accepted'}")
+    ctx.ob("C16.R3", se, "a warm-up request is rejected exactly when it is shorter than 20 or "
+                         "than init + term + base (guards evaluated on a boundary grid; the "
+                         "equality case is admissible)", not bad_g and err_g is None,
+           unproven=err_g is not None, detail="; ".join(bad_g[:3]) or str(err_g or ""),
+           stmt="warm-up guards " + "; ".join(bad_g[:2]))
 
     # ------------------------------------------------------------------ R4
     eb = repo.cls("liesel.goose.builder.EngineBuilder")
